@@ -162,6 +162,11 @@ def operand_matrix():
         ("msum mexpr", ["msum", _Ae], False),
         ("msum hadamard", ["msum", ["mbin", "*", _A, _Bm]], False),
         ("fro A", ["fro", _A], False),
+        ("fro mexpr", ["fro", ["mbin", "-", _A, ["arr2", [[0.5, -1.0, 2.0], [1.5, 0.25, -0.75]]]]], False),
+        ("fro matvar+matvar", ["fro", ["mbin", "+", _A, _Bm]], False),
+        ("fro mexpr.T", ["fro", ["MT", ["mbin", "*", _Q, ["raw", 2.0, "float"]]]], False),
+        ("fro sub-matrix", ["fro", ["sub", _Q, 0, 2, 1, 3]], False),
+        ("msum of reused mexpr", ["msum", ["mbin", "**", ["mbin", "-", _A, ["raw", 1.0, "float"]], ["raw", 2, "int"]]], False),
         ("fro S", ["fro", _S], False),
         ("norm2 vec", ["norm", _x, 2, "method"], False),
         ("norm1 vec", ["norm", _x, 1, "method"], False),
@@ -239,6 +244,27 @@ def info(tier):
     }
 
 
+class MemoBuilder(B.Builder):
+    """Builds every distinct vector / matrix sub-recipe ONCE and reuses the object (a user's `R = X - C; sq = R ** 2`),
+    remembering the intermediate objects so that they can be re-observed after they were used as operands."""
+
+    def __init__(self, decls):
+        super().__init__(decls)
+        self.memo = {}
+
+    def V(self, n):
+        key = A.canon(n)
+        if key not in self.memo:
+            self.memo[key] = ("V", n, super().V(n))
+        return self.memo[key][2]
+
+    def M(self, n):
+        key = A.canon(n)
+        if key not in self.memo:
+            self.memo[key] = ("M", n, super().M(n))
+        return self.memo[key][2]
+
+
 def observe(obj, values):
     """(shape, flat float array) of a built object at `values`."""
     import optyx
@@ -304,7 +330,7 @@ def run_case(rec, rng, cell, kind, node, decls, expect_mismatch=None, check_name
         rec.inconclusive.append(f"harness self-check: cell {cell} expected mismatch={expect_mismatch}, reference says {ref_mismatch}")
         return
     try:
-        b = B.Builder(decls)
+        b = MemoBuilder(decls)
         obj = b.any(node)
         built = True
     except Exception as ex:
@@ -366,6 +392,29 @@ def run_case(rec, rng, cell, kind, node, decls, expect_mismatch=None, check_name
             if not ok:
                 bad("value-mismatch", got=g[:8].tolist(), want=w[:8].tolist(), point=pt)
                 return
+    # operands must be intact after they were used: every intermediate vector / matrix object is observed again
+    import optyx
+
+    for key, (k2, n2, o2) in list(b.memo.items()):
+        if n2 is node or n2[0] in ("arr", "list", "tuple", "arr2", "list2") or not (hasattr(o2, "evaluate") or hasattr(o2, "to_numpy")):
+            continue
+        if isinstance(o2, (np.ndarray, list, tuple)):
+            continue
+        try:
+            want2, t2 = ref_array(D, k2, n2, pts[0])
+            got2 = observe(o2, pts[0])
+        except (R.ShapeError, R.OutOfModel):
+            continue
+        except Exception as ex:
+            bad("operand-unusable-after-use:" + type(ex).__name__, operand=A.render(n2), error=repr(ex)[:200])
+            return
+        rec.cmp(1, cell)
+        rec.events["operand-intact-checks"] += 1
+        if not np.all(np.isfinite(want2)) or not t2.regular(1e-3):
+            continue
+        if tuple(np.shape(got2)) != tuple(np.shape(want2)) or not all(close(g_, w_, 2e-6 if "npf32" in key else RTOL, t2.mag)[0] for g_, w_ in zip(np.asarray(got2, float).reshape(-1), np.asarray(want2, float).reshape(-1))):
+            bad("operand-changed-by-a-later-operation", operand=A.render(n2), got=np.asarray(got2, float).reshape(-1)[:8].tolist(), want=np.asarray(want2, float).reshape(-1)[:8].tolist())
+            return
     rec.sample(show, cap=6)
 
 
